@@ -9,16 +9,22 @@ from ..core import Result, Violation
 from ..progmc import driver, jobs as J
 
 P = "C09"
-PLACEMENTS = ["root_body", "root_helper", "kept_body", "kept_helper", "two_loads", "kept_datafn"]
-PRODUCERS = ["datafn", "keepcall"]
+PLACEMENTS = ["root_body", "root_helper", "kept_body", "kept_helper", "two_loads", "kept_datafn", "same_path_twice"]
+PRODUCERS = ["datafn", "keepcall", "keepcall_shared_fn"]
 
 
 def make_spec(placement, producer):
     funcs = [{"name": "Pf", "module": "main", "params": [], "body": [{"k": "read", "var": "VP"}]},
              {"name": "Qf", "module": "main", "params": [], "datafn": "/l/q", "body": [{"k": "read", "var": "VQ"}]}]
+    pre = []
     if producer == "datafn":
         funcs[0]["datafn"] = "/l/p"
         prod = {"k": "call", "fn": "Pf", "form": "plain"}
+    elif producer == "keepcall_shared_fn":
+        # the producing function is also kept under another path, with another literal argument, just before
+        funcs[0]["params"] = [["a", None]]
+        pre = [{"k": "keep", "path": "/l/p0", "fn": "Pf", "args": [{"lit": "0"}]}]
+        prod = {"k": "keep", "path": "/l/p", "fn": "Pf", "args": [{"lit": "5"}]}
     else:
         prod = {"k": "keep", "path": "/l/p", "fn": "Pf", "args": []}
     prodq = {"k": "call", "fn": "Qf", "form": "plain"}
@@ -29,8 +35,8 @@ def make_spec(placement, producer):
     elif placement == "root_helper":
         funcs.append({"name": "hr", "module": "main", "params": [], "body": [load]})
         reader_items = [{"k": "call", "fn": "hr", "form": "plain"}]
-    elif placement in ("kept_body", "two_loads"):
-        body = [load] + ([{"k": "load", "path": "/l/q"}] if two else [])
+    elif placement in ("kept_body", "two_loads", "same_path_twice"):
+        body = [load] + ([{"k": "load", "path": "/l/q"}] if two else []) + ([dict(load)] if placement == "same_path_twice" else [])
         funcs.append({"name": "K", "module": "main", "params": [], "body": body})
         reader_items = [{"k": "keep", "path": "/l/k", "fn": "K", "args": []}]
     elif placement == "kept_datafn":
@@ -40,21 +46,24 @@ def make_spec(placement, producer):
         funcs.append({"name": "hk", "module": "main", "params": [], "body": [load]})
         funcs.append({"name": "K", "module": "main", "params": [], "body": [{"k": "call", "fn": "hk", "form": "plain"}]})
         reader_items = [{"k": "keep", "path": "/l/k", "fn": "K", "args": []}]
-    prods = [prod] + ([prodq] if two else [])
+    prods = pre + [prod] + ([prodq] if two else [])
+    skipped = [dict(x, ctx="if_false") for x in prods]
     funcs += [
         {"name": "root_p", "module": "main", "params": [], "body": list(prods)},
         {"name": "root_r", "module": "main", "params": [], "body": list(reader_items)},
         {"name": "root_both", "module": "main", "params": [], "body": list(prods) + list(reader_items)},
         {"name": "root_rev", "module": "main", "params": [], "body": list(reader_items) + list(prods)},
+        {"name": "root_skip", "module": "main", "params": [], "body": skipped + list(reader_items)},
     ]
     entries = {"produce": {"kind": "eval", "fn": "root_p"}, "read": {"kind": "eval", "fn": "root_r"},
-               "both": {"kind": "eval", "fn": "root_both"}, "reversed": {"kind": "eval", "fn": "root_rev"}}
+               "both": {"kind": "eval", "fn": "root_both"}, "reversed": {"kind": "eval", "fn": "root_rev"},
+               "skipped_producer": {"kind": "eval", "fn": "root_skip"}}
     if placement == "kept_datafn":
         entries["read_direct"] = {"kind": "call", "fn": "K"}
     vars_ = [{"name": "VP", "module": "main", "values": ["1", "2"]}, {"name": "VQ", "module": "main", "values": ["1", "2"]}]
     eps = [{"id": "VP", "kind": "producer_var", "n": 2}] + ([{"id": "VQ", "kind": "producer_var", "n": 2}] if two else [])
     return {"id": f"L/{placement}/{producer}", "key": f"load={placement}|producer={producer}", "modules": ["main"], "vars": vars_, "funcs": funcs,
-            "entries": entries, "eps": eps, "expect_error": {"reversed": "dds"}}
+            "entries": entries, "eps": eps, "expect_error": {"reversed": "dds"}, "may_reject": ["skipped_producer"]}
 
 
 def plan(tier):
@@ -67,10 +76,11 @@ def plan(tier):
                 d = 2 if (tier == "quick" or len(sp["eps"]) > 1) else 3
                 if tier == "quick" and st == "local" and pl not in ("kept_body", "root_body"):
                     continue
-                items.append((sp, ents, st, d, {P}, (False, ("inproc", "restart"))))
-            if tier == "quick" and len(sp["eps"]) == 1:
+                items.append((sp, [e for e in ents if e != "skipped_producer"], st, d, {P}, (False, ("inproc", "restart"))))
+            if len(sp["eps"]) == 1:
                 # depth 3 over the entries that matter for invalidation: produce, read, both
                 items.append((sp, ["produce", "read", "both"], "memory", 3, {P}, (False, ("inproc",))))
+
     return items
 
 
